@@ -532,6 +532,40 @@ impl Vm {
   { panic!() }
 }
 
+
+// ---- channel creation (C16, C07): Channel::sync / Channel::with_capacity + manage_obj ---------------------------------
+/// GcHooks::new(self): a handle used only to allocate
+pub struct GcHooks { }
+impl GcHooks { pub fn new(vm: &Vm) -> (r: GcHooks) { GcHooks { } } }
+/// laythe_core::object::Channel before it is put on the managed heap
+pub struct Channel { pub sync: bool, pub cap: usize }
+impl Channel {
+  #[verifier::external_body] pub fn sync(hooks: &GcHooks) -> (r: Channel) ensures r.sync, r.cap == 1 { Channel { sync: true, cap: 1 } }
+  /// precondition = the contract of ChannelQueue::with_capacity VERIFIED in the chanq unit (Channel::with_capacity passes its argument through)
+  #[verifier::external_body] pub fn with_capacity(hooks: &GcHooks, capacity: usize) -> (r: Channel) requires capacity > 0 ensures !r.sync, r.cap == capacity { Channel { sync: false, cap: capacity } }
+}
+pub uninterp spec fn chan_sync(c: ChanRef) -> bool;
+pub uninterp spec fn chan_cap(c: ChanRef) -> usize;
+pub uninterp spec fn f_has_fract(a: f64) -> bool;          // a.fract() != 0.0 (true for NaN and the infinities)
+pub uninterp spec fn f_to_usize(a: f64) -> usize;          // `a as usize` (saturating, NaN -> 0)
+#[verifier::external_body] pub fn verif_has_fract(a: f64) -> (r: bool) ensures r == f_has_fract(a) { a.fract() != 0.0 }
+#[verifier::external_body] pub fn verif_f64_to_usize(a: f64) -> (r: usize) ensures r == f_to_usize(a) { a as usize }
+/// A-float: an f64 with no fractional part that is not below 1.0 casts to a usize >= 1.  Discharged for all 2^64 bit patterns
+/// by the Kani harness kx/value o16_f64_cast_positive (complete, loop-free).
+pub broadcast axiom fn axiom_integral_cast_positive(c: f64)
+  requires !f_has_fract(c), !f_lt(c, 1.0f64),
+  ensures #[trigger] f_to_usize(c) >= 1,
+;
+impl Vm {
+  /// allocate a channel
+  #[verifier::external_body]
+  pub fn manage_chan(&mut self, c: Channel) -> (r: ChanRef)
+    ensures chan_sync(r) == c.sync, chan_cap(r) == c.cap,
+            final(self).fiber == old(self).fiber, final(self).ip == old(self).ip, final(self).raised == old(self).raised, final(self).constants == old(self).constants,
+            final(self).builtin == old(self).builtin, final(self).queued == old(self).queued, final(self).cache == old(self).cache, final(self).heap == old(self).heap, final(self).called == old(self).called, final(self).call_log == old(self).call_log, final(self).capture_stub == old(self).capture_stub
+  { ChanRef { p: 0 } }
+}
+
 // R12: if_let_obj! / to_obj_kind! copied from laythe_core/src/macros.rs with the `$crate::` prefixes and `use` lines removed
 macro_rules! to_obj_kind {
   ($o:expr, Channel) => {
